@@ -27,7 +27,10 @@ Inductive case :=
 | CLibScale (omin omax : option Q) (s0 s1 : list (list Q))
 | CLibEval (clip : bool) (L units dims terms : nat)
         (k : list (list (list Q))) (s : list (list Q)) (b : list Q)
-        (pts : list (list (list Q))) (outs : list (list Q)).
+        (pts : list (list (list Q))) (outs : list (list Q))
+(* CTol t c: case c compared with relative tolerance t instead of the default
+   1e-9 (float32 layers: 1e-5). *)
+| CTol (t : Q) (c : case).
 
 Definition tol : Q := 1 # 1000000000.
 Definition flat4 (k : kernel) : list Q := concat (concat (concat k)).
@@ -36,34 +39,36 @@ Fixpoint list_eqb {A} (e : A -> A -> bool) (a b : list A) : bool :=
   match a, b with [], [] => true | x :: a', y :: b' => e x y && list_eqb e a' b' | _, _ => false end.
 Definition nat3_eqb : list (list (list nat)) -> list (list (list nat)) -> bool :=
   list_eqb (list_eqb (list_eqb Nat.eqb)).
-Definition kern_close (a b : kernel) : bool :=
+Definition kern_close (tol : Q) (a b : kernel) : bool :=
   nat3_eqb (shape4 a) (shape4 b) && qlist_close tol (flat4 a) (flat4 b).
 
-Definition check (c : case) : bool :=
+Fixpoint check_with (tol : Q) (c : case) : bool :=
   match c with
   | CLayer cfg units dims terms si bi k0 s0 b0 steps k1 s1 pts outs =>
       let L := c_size cfg in
       let p1 := run qroot cfg steps (mkPar (unpack L units dims terms k0) s0 b0) in
       qmat_close tol (scale_init cfg units terms) si &&
       qlist_close tol (bias_init cfg units) bi &&
-      kern_close (p_kern p1) (unpack L units dims terms k1) &&
+      kern_close tol (p_kern p1) (unpack L units dims terms k1) &&
       qmat_close tol (p_scale p1) s1 &&
       qmat_close tol (map (layer_out cfg p1) pts) outs
   | CLibW monos omin omax L units dims terms k0 s k1 =>
-      kern_close (finalize_weights qroot monos omin omax s (unpack L units dims terms k0))
+      kern_close tol (finalize_weights qroot monos omin omax s (unpack L units dims terms k0))
                  (unpack L units dims terms k1)
   | CLibMono monos L units dims terms k0 s k1 =>
-      kern_close (map2 (fun su ku => map2 (project_mono_term monos) su ku) s (unpack L units dims terms k0))
+      kern_close tol (map2 (fun su ku => map2 (project_mono_term monos) su ku) s (unpack L units dims terms k0))
                  (unpack L units dims terms k1)
   | CLibBounds omin omax L units dims terms k0 k1 =>
-      kern_close (map (map (project_bounds_term qroot omin omax)) (unpack L units dims terms k0))
+      kern_close tol (map (map (project_bounds_term qroot omin omax)) (unpack L units dims terms k0))
                  (unpack L units dims terms k1)
   | CLibScale omin omax s0 s1 =>
       qmat_close tol (map (map (finalize_scale1 omin omax)) s0) s1
   | CLibEval clip L units dims terms k s b pts outs =>
       let cfg := mkCfg L None None None clip in
       qmat_close tol (map (layer_out cfg (mkPar (unpack L units dims terms k) s b)) pts) outs
+  | CTol t c' => check_with t c'
   end.
+Definition check (c : case) : bool := check_with tol c.
 
 (* Second check, on the MODEL's constrained parameters of the layer cases:
    the property itself evaluated in exact arithmetic on the generated points
@@ -75,7 +80,7 @@ Definition has_step_k (steps : list step) : bool :=
 Definition has_step_s (steps : list step) : bool :=
   existsb (fun s => match s with StepK => false | _ => true end) steps.
 Definition slack : Q := 1 # 1000000.
-Definition check_bounds (c : case) : bool :=
+Fixpoint check_bounds (c : case) : bool :=
   match c with
   | CLayer cfg units dims terms si bi k0 s0 b0 steps k1 s1 pts outs =>
       if has_step_k steps && has_step_s steps then
@@ -89,5 +94,6 @@ Definition check_bounds (c : case) : bool :=
               (layer_out cfg p1 xss)
           else true) pts
       else true
+  | CTol _ c' => check_bounds c'
   | _ => true
   end.
